@@ -773,3 +773,113 @@ def _kt_normalize_ensures_all(self, S, a, K):
 
 
 kt_normalize._ensures_all = _kt_normalize_ensures_all
+
+
+@register
+class kt_isequal(Contract):
+    qual = K_ + "isequal"
+    props = ("C08", "C01")
+    doc = ("A.isequal(B) for two Kruskal tensors of the same shape: True exactly when they have the same number of components, "
+           "equal weights and entry-wise equal factor matrices in every mode; a non-ktensor operand gives False.  Loop "
+           "invariant over the modes (the loop returns early at the first differing factor).")
+    inline = KT_INLINE
+
+    def setup(self, S, case):
+        A = sym_ktensor(S, "A")
+        B = sym_ktensor(S, "B")
+        gA, gB = A.ghost, B.ghost
+        # same order and shape (isequal is only meaningful then; array_equal of differently shaped factors is False)
+        S.assume(gA["N"] == gB["N"])
+        q = z3.Int("ie!q")
+        S.assume(T.ForAll([q], z3.Implies(z3.And(0 <= q, q < gA["N"]), T.tz(gA["shape"].fn(q)) == T.tz(gB["shape"].fn(q))), [gA["shape"].fn(q)]))
+        return dict(__self__=A, other=B)
+
+    @staticmethod
+    def _same_upto(a, k):
+        A, B = a["__self__"], a["other"]
+        gA, gB = A.ghost, B.ghost
+        m, i, j = z3.Int("ie!m"), z3.Int("ie!i"), z3.Int("ie!j")
+        return T.ForAll([m, i, j], z3.Implies(z3.And(0 <= m, m < T.tz(k), 0 <= i, i < T.tz(gA["shape"].fn(m)), 0 <= j, j < gA["R"]),
+                                              gA["fm"](m, i, j) == gB["fm"](m, i, j)), [gA["fm"](m, i, j)])
+
+    loops = {0: dict(modifies=[], inv=lambda S, a, env, i: kt_isequal._same_upto(a, i))}
+
+    def ensures(self, S, a, ret):
+        A, B = a["__self__"], a["other"]
+        gA, gB = A.ghost, B.ghost
+        r = z3.Int("ie!r")
+        same_w = T.ForAll([r], z3.Implies(z3.And(0 <= r, r < gA["R"]), T.tz(A.fields["weights"].fn(r)) == T.tz(B.fields["weights"].fn(r))))
+        same = z3.And(gA["R"] == gB["R"], same_w, self._same_upto(a, gA["N"]))
+        yield "boolean", T.is_scalar(ret) or isinstance(ret, bool)
+        rt = T.tz(ret) if not isinstance(ret, bool) else z3.BoolVal(ret)
+        yield "true-only-if-equal", z3.Implies(rt, same)
+        yield "true-if-equal", z3.Implies(same, rt)
+
+
+@register
+class kt_issymmetric(Contract):
+    qual = K_ + "issymmetric"
+    props = ("C15",)
+    doc = ("K.issymmetric() for a Kruskal tensor whose modes all have the same size d (any order N, rank R): the answer is "
+           "True exactly when every two factor matrices are entry-wise equal -- the test is exact, no tolerance; with "
+           "return_diffs the matrix of differences is returned as well, zero exactly at the pairs of equal factors (and below "
+           "the diagonal).  Nested loop invariants over the pairs of modes.  (Modes of different sizes: bounded only -- the "
+           "code stores np.inf there, which the real-number encoding cannot represent.)")
+    inline = KT_INLINE
+
+    def case_names(self):
+        return ["answer-only", "with-diffs"]
+
+    def setup(self, S, case):
+        Nn, Rr, d = S.int("K_N", 1), S.int("K_R", 1), S.int("d", 1)
+        fm = z3.Function(T.fresh_name("K_fm"), I_, I_, I_, z3.RealSort())
+        fms = SymList(Nn, lambda m: Arr((d, Rr), lambda i, j, m=m: fm(T.tz(m), T.tz(i), T.tz(j)), "real"), kind="list")
+        K = Rec("ktensor", dict(weights=Arr.fresh("K_w", (Rr,), "real"), factor_matrices=fms))
+        K.ghost = dict(N=Nn, R=Rr, d=d, fm=fm)
+        a = dict(__self__=K)
+        if case == "with-diffs":
+            a["return_diffs"] = True
+        return a
+
+    @staticmethod
+    def _eq(g, x, y):
+        r, c = z3.Int("sy!r"), z3.Int("sy!c")
+        return T.ForAll([r, c], z3.Implies(z3.And(0 <= r, r < g["d"], 0 <= c, c < g["R"]), g["fm"](x, r, c) == g["fm"](y, r, c)))
+
+    @staticmethod
+    def _inv(S, a, env, i, jcount=None):
+        """Rows < i of the strict upper triangle are decided (and, with jcount, the first jcount pairs of row i);
+        every other entry of diffs is still 0."""
+        g = a["__self__"].ghost
+        D = N.snap(env["diffs"])
+        Nn = g["N"]
+        i = T.tz(i)
+        x, y = z3.Int("sy!x"), z3.Int("sy!y")
+        dv = lambda x_, y_: T.tz(T.as_real(D.fn(x_, y_)))
+        if jcount is None:
+            decided = z3.And(x < i, x < y)
+        else:
+            decided = z3.And(x < y, z3.Or(x < i, z3.And(x == i, y < i + 1 + T.tz(jcount))))
+        inr = z3.And(0 <= x, x < Nn, 0 <= y, y < Nn)
+        return z3.And(
+            T.tz(T.eq(D.shape[0], Nn)), T.tz(T.eq(D.shape[1], Nn)),
+            T.ForAll([x, y], z3.Implies(z3.And(inr, decided, dv(x, y) == 0), kt_issymmetric._eq(g, x, y)), [D.fn(x, y)]),
+            T.ForAll([x, y], z3.Implies(z3.And(inr, decided, kt_issymmetric._eq(g, x, y)), dv(x, y) == 0), [D.fn(x, y)]),
+            T.ForAll([x, y], z3.Implies(z3.And(inr, z3.Not(decided)), dv(x, y) == 0), [D.fn(x, y)]))
+
+    loops = {0: dict(modifies=["diffs"], inv=lambda S, a, env, i: kt_issymmetric._inv(S, a, env, i)),
+             1: dict(modifies=["diffs"], inv=lambda S, a, env, k: kt_issymmetric._inv(S, a, env, env["i"], k))}
+
+    def ensures(self, S, a, ret):
+        g = a["__self__"].ghost
+        x, y = z3.Int("sy!ex"), z3.Int("sy!ey")
+        allsame = T.ForAll([x, y], z3.Implies(z3.And(0 <= x, x < y, y < g["N"]), self._eq(g, x, y)))
+        if a.get("return_diffs"):
+            yield "returns-(answer, diffs)", isinstance(ret, tuple) and len(ret) == 2
+            ans, D = ret
+            yield "diffs-zero-exactly-at-equal-pairs", self._inv(S, a, dict(diffs=D), g["N"])
+        else:
+            ans = ret
+        rt = T.tz(ans) if not isinstance(ans, bool) else z3.BoolVal(ans)
+        yield "symmetric-answer-only-if-all-factors-equal", z3.Implies(rt, allsame)
+        yield "symmetric-answer-if-all-factors-equal", z3.Implies(allsame, rt)
